@@ -335,7 +335,7 @@ func shape(o *Obligation) {
 	for _, d := range o.Defs {
 		srcs = append(srcs, d.T)
 	}
-	extra := elementIndexTerms(srcs, 14)
+	extra := elementIndexTerms(srcs, 24)
 	if len(sks) == 0 && len(extra) == 0 {
 		return
 	}
